@@ -111,6 +111,15 @@ def events(rng, homs):
         yield "crm_near", {"a": a, "d": d_}, 1 / K, (lambda A=A, M=M, K=K: (V(K * A) @ V(M)).A), "SpatialVelocity@(nearly-equal)"
     Js = [((2, 0, 0), (0, 3, 0), (0, 0, 4)), ((2, 1, 0), (1, 3, -1), (0, -1, 4)), ((5, -2, 1), (-2, 6, 0), (1, 0, 7))]
     cs = [(0, 0, 0), (1, 0, 0), (1, -2, 3), (0, 2, -1)]
+    # a point mass: the rotational inertia omitted (documented default: none about the centre of mass)
+    Z9 = [0] * 9
+    for m in (1, 2, 5):
+        for c in cs:
+            yield "inertia", {"m": m, "c": c, "J": Z9}, 1.0, (lambda m=m, c=c: SpatialInertia(float(m), np.array(c, dtype=float)).A), "SpatialInertia(m,c)"
+            yield "inertia", {"m": m, "c": c, "J": Z9}, 1.0, (lambda m=m, c=c: SpatialInertia(m=float(m), r=list(c)).A), "SpatialInertia(m=,r=)"
+            a = pts[7]
+            yield "inertia_mul", {"m": m, "c": c, "J": Z9, "a": a}, 1.0, \
+                (lambda m=m, c=c, a=a: (SpatialInertia(float(m), np.array(c, dtype=float)) * C["SpatialAcceleration"](np.array(a, dtype=float))).A), "SpatialInertia(m,c)*acceleration"
     for m in (1, 2, 5):
         for c in cs:
             for J in Js:
